@@ -31,9 +31,16 @@ var histPaths = []string{
 	`[?(@.a)]`, `[?(@.b)].b`, `[0]`, `['a','b']`, `[*].a`, `*`, `[0:2]`, `a[?(@.c)]`, `[?(@.a == 1)].a`, `$[?(@[?(@.c)])]`, `$.b[?(@[?(@.c > 1)].c == 3)]`,
 	`$[?(@.a.f() == 'x' && @[?(@.nofn())])]`, `$[?(@[?(@.a == 1e999)])]`, `$[?(@.a[(1)])]`, `$.x[?(@.a.nofn())]`, `$[?(@[99999999999999999999])]`, `$[?($[?(@.nofn())])]`, `[?(@.nofn())]`,
 	`$[?(@.a == 1 || @.b.g() == 2)]`, `$[?(!@.a)]`, `$..[?(@.c)]`, "$[?(@.a == 'x\x00')]", `$.a.g().g()`, `$[?(@.g().f().g() == 1)]`,
+	// the same raw token text in two different roles (a quoted name / a string literal whose content looks like one, escaped dot names /
+	// bracket names with the same backslashes, a regex / a string literal with the same text): whatever is remembered about a text
+	// in one role must not be used for the other
+	`$["a"]`, `$[?(@ == '"a"')]`, `$[?(@.a == '"a"')]`, `$['a']`, `$[?(@ == "'a'")]`, `$["b"]`, `$[?(@ == '"b"')]`, `$.a\.b`, `$['a\\.b']`, `$[?(@ == 'a\.b')]`, `$[?(@ =~ /a\.b/)]`,
+	`$["a\nb"]`, `$[?(@ == '"a\nb"')]`, `$[?(@ == 'a')]`, `$.a`, `$[?(@ =~ /a/)]`, `$['"a"']`,
 }
 
-var histDocs = []string{`{"a":1,"b":[1,2,{"c":3}]}`, `[{"a":1},{"a":2,"b":1},[1,2,3]]`, `{"a":{"c":1},"b":{"c":2}}`, `[[1,2],[3]]`}
+var histDocs = []string{`{"a":1,"b":[1,2,{"c":3}]}`, `[{"a":1},{"a":2,"b":1},[1,2,3]]`, `{"a":{"c":1},"b":{"c":2}}`, `[[1,2],[3]]`,
+	// members whose names / values are the texts above with and without their quote characters and backslashes
+	`{"a":"\"a\"","\"a\"":"quoted-a","'a'":"single-quoted-a","a.b":"a.b","a\\.b":"a-backslash-dot-b","a\nb":"a-lf-b","s":["a","\"a\"","'a'","a.b","a\\.b","\"b\"","\"a\nb\"","axb"]}`}
 
 // histConfigs builds the configurations; every user function tags its output
 // with the configuration it belongs to, so a leak between configurations is visible.
